@@ -153,6 +153,7 @@ ADAPTORS = [
     (r'^Header_write$', _scenario('header_write_label')),
     (r'^c3d_updateHeader$', _scenario('header_frames_after_declare')),
     (r'^c3d_parameter$', _scenario('param_untyped_creates_group')),
+    (r'^B_c3d_(point|analog)_frames$', _scenario('column_adder_partial')),
 ]
 
 
